@@ -177,11 +177,10 @@ Section EvalLinker.
     - destruct (st_eqb x Failed && fail_raise o); cbn [fst]; (split; [cbn; congruence|]); (split; [cbn; congruence|exact R]).
   Qed.
 
-  (* THE VALUES FRAME OF linker.solve_t, for every selection of submodels and every option set *)
-  Theorem linker_solve_t_values_frame sel o s : svr s (fst (solve_t sel o t s)).
+  (* the body of linker.solve_t (everything after the guards and the offset seeding), from ANY state *)
+  Lemma linker_body_values_frame sel o s : svr s (fst (linker_solve_t_body num sub absf ltb zero sev pre ebefore eafter post sel o t s)).
   Proof.
-    unfold Linker.linker_solve_t_M. destruct (max_iter o <? min_iter o); [apply svr_refl|].
-    destruct (linker_infeasible _ _ t); [apply svr_refl|]. unfold Linker.linker_solve_t_body.
+    unfold Linker.linker_solve_t_body.
     destruct (get_check_values num zero (sel_ids num sel s) t s) as [cur|e]; [|apply svr_refl].
     pose proof (zero_iters_rel (sel_ids num sel s) (l_subs s)) as Z0.
     destruct (zero_iters num (sel_ids num sel s) t (l_subs s)) as [subs1 [e|]]; cbn [fst] in *.
@@ -195,14 +194,43 @@ Section EvalLinker.
     eapply svr_trans; [apply (lloop_rel (sel_ids num sel s) o (Z.to_nat (max_iter o)) 1%nat s1 cur)|apply lfinish_rel].
   Qed.
 
+  (* linker.solve_t = guards, then the offset seeding (fix 6298cba: endogenous cells of period t of the core and of the
+     selected submodels copied from t + offset), then the body.  The whole call, for every selection and option set:
+     the state it leaves is related by the values frame to the state AFTER seeding, which is s itself or `seeded ... s` *)
+  Theorem linker_solve_t_seed_then_frame sel o s :
+    exists s0, (s0 = s \/ exists p q, s0 = seeded num zero (sel_ids num sel s) p q s) /\ svr s0 (fst (solve_t sel o t s)).
+  Proof.
+    unfold Linker.linker_solve_t_M.
+    destruct (max_iter o <? min_iter o); [exists s; split; [left; reflexivity|apply svr_refl]|].
+    destruct (linker_infeasible _ _ t); [exists s; split; [left; reflexivity|apply svr_refl]|].
+    unfold Linker.linker_seed.
+    destruct (offset o =? 0); [exists s; split; [left; reflexivity|apply linker_body_values_frame]|].
+    match goal with |- context [if ?c then (s, Some IndexError) else _] => destruct c end;
+      [exists s; split; [left; reflexivity|apply svr_refl]|].
+    match goal with |- context [if ?c then (s, Some KeyError) else _] => destruct c end;
+      [exists s; split; [left; reflexivity|apply svr_refl]|].
+    destruct (py_pos (length (status (c_st (l_core s)))) t) as [p|].
+    - eexists. split; [right; eexists; eexists; reflexivity|apply linker_body_values_frame].
+    - destruct (has_endo num (sel_ids num sel s) s); exists s; (split; [left; reflexivity|]); [apply svr_refl|apply linker_body_values_frame].
+  Qed.
+
+  (* THE VALUES FRAME OF linker.solve_t when no offset is given, for every selection of submodels and every option set *)
+  Theorem linker_solve_t_values_frame sel o s : offset o = 0 -> svr s (fst (solve_t sel o t s)).
+  Proof.
+    intros Ho. unfold Linker.linker_solve_t_M. destruct (max_iter o <? min_iter o); [apply svr_refl|].
+    destruct (linker_infeasible _ _ t); [apply svr_refl|]. unfold Linker.linker_seed. rewrite Ho. cbn [Z.eqb].
+    apply linker_body_values_frame.
+  Qed.
+
   (* the same, cell by cell *)
   Corollary linker_solve_t_cells sel o s i id c :
+    offset o = 0 ->
     nth_error (l_subs s) i = Some (id, c) ->
     vals_of (c_st (l_core (fst (solve_t sel o t s)))) = vals_of (c_st (l_core s)) /\
     exists c', nth_error (l_subs (fst (solve_t sel o t s))) i = Some (id, c') /\ c_desc c' = c_desc c /\
                agree_outside (W id (shape (vals_of (c_st c)))) (vals_of (c_st c)) (vals_of (c_st c')).
   Proof.
-    intros Hi. destruct (linker_solve_t_values_frame sel o s) as (_ & V & F). split; [exact V|].
+    intros Ho Hi. destruct (linker_solve_t_values_frame sel o s Ho) as (_ & V & F). split; [exact V|].
     revert i Hi. induction F as [|a b l l' Hab F IH]; intros i Hi; [destruct i; discriminate|].
     destruct i as [|i]; cbn [nth_error] in *.
     - inversion Hi; subst. destruct b as [id' c']. destruct Hab as [Hf [D A]]. cbn [fst snd] in *. subst id'.
@@ -253,21 +281,23 @@ Section EvalLinkerParsed.
   Definition lsev : sid -> hook num := fun j t _ _ k v => ev_of (progs j) t EIgnore false k v.
 
   Theorem linker_parsed_solve_t_cells sel o t s i id c :
+    offset o = 0 ->
     nth_error (l_subs s) i = Some (id, c) ->
     let s' := fst (linker_solve_t_M num sub absf ltb zero lsev lpass lpass lpass lpass sel o t s) in
     vals_of (c_st (l_core s')) = vals_of (c_st (l_core s)) /\
     exists c', nth_error (l_subs s') i = Some (id, c') /\ c_desc c' = c_desc c /\
                agree_outside (written num (progs id) (shape (vals_of (c_st c))) t) (vals_of (c_st c)) (vals_of (c_st c')).
   Proof.
-    intros Hi. cbv zeta.
+    intros Ho Hi. cbv zeta.
     apply (linker_solve_t_cells num sub absf ltb zero lsev lpass lpass lpass lpass t
-             (fun j sh => written num (progs j) sh t)); try (intros ? ? ? ? ? ?; reflexivity); [|exact Hi].
+             (fun j sh => written num (progs j) sh t)); try (intros ? ? ? ? ? ?; reflexivity); [|exact Ho|exact Hi].
     intros j sh em cf k v Hsh. unfold lsev. apply (parsed_ev_frame num add sub mul div pow neg absf ltb leb eqb zero fun1 fun2 flagged (progs j) sh t EIgnore false k v Hsh).
   Qed.
 
   (* in a period the guard lets through, with the submodel's own lags / leads within the linker's (lags_leads_are_maxima,
      C08) and arrays of the span's length: the cells a submodel may change are exactly (y, p + k) for its left-hand terms *)
   Theorem linker_parsed_solve_t_cells_feasible sel o t s i id c p :
+    offset o = 0 ->
     nth_error (l_subs s) i = Some (id, c) ->
     py_pos (length (status (c_st (l_core s)))) t = Some p ->
     feasible (c_desc (l_core s)) (length (status (c_st (l_core s)))) p = true ->
@@ -278,8 +308,8 @@ Section EvalLinkerParsed.
       forall j q, (forall k, In (j, k) (prog_lhs num (progs id)) -> Z.of_nat q <> Z.of_nat p + k) ->
                   nth_error (nth j (vals_of (c_st c')) []) q = nth_error (nth j (vals_of (c_st c)) []) q.
   Proof.
-    intros Hi Hp Hf Hwf Hlag Hlead. cbv zeta.
-    destruct (linker_parsed_solve_t_cells sel o t s i id c Hi) as (_ & c' & Hn & Hd & [S C]).
+    intros Ho Hi Hp Hf Hwf Hlag Hlead. cbv zeta.
+    destruct (linker_parsed_solve_t_cells sel o t s i id c Ho Hi) as (_ & c' & Hn & Hd & [S C]).
     exists c'. split; [exact Hn|]. split; [exact Hd|]. split; [exact S|].
     intros j q Hq. apply C. intros Hw.
     apply feasible_inv in Hf as [F1 F2].
